@@ -87,6 +87,8 @@ EXPLAIN_CONTENT = {
     'O7-noraise': ('a raise statement of the processor can be reached by a chart that follows the handler protocol (every handler answers with a status, a parent differs from '
                    'its child, the target of an initial transition lies inside the state that takes it): a well-formed transition or start is aborted half-way - some exits '
                    'or entries have run, the rest have not, and the current state is stale'),
+    'O8-offer': ('the event is not offered to the states of the active chain in order (current state first, then its parent, ...), or the guard fallback (EMPTY re-ask) '
+                 'goes to another state than the one that has just declined: an inner state is skipped, or an outer state answers an event that an inner one would have handled'),
     'O6-lca': ('where the entry-path routine returns, the exits made and the entry index do not meet at one tested common state: it must have compared a state of the active '
                'chain at depth m with an ancestor of the target at depth q (identity/equality test passed on this path), have exited exactly the m states below it, and '
                'return q-1 so that entry starts just below it (for source == target the pair of parents is the common state: exit and re-enter the source)'),
@@ -103,12 +105,12 @@ def content_analysis(model, entry_name, cursor_at_entry):
     return _content_cache[key]
 
 
-def record_content_obligations(run, model, entry_name, cursor_at_entry=False, rule='HSM-CONTENT'):
+def record_content_obligations(run, model, entry_name, cursor_at_entry=False, rule='HSM-CONTENT', kinds=None):
     """slot k of the path buffer holds the k-th ancestor of the target whenever it is used for entry (ghost frontier K, ghost depths d)"""
     ca, res = content_analysis(model, entry_name, cursor_at_entry)
-    counts = {'O4-content': 0, 'O5-content': 0, 'O6-exit': 0, 'O6-lca': 0, 'O7-noraise': 0}
+    counts = {'O4-content': 0, 'O5-content': 0, 'O6-exit': 0, 'O6-lca': 0, 'O7-noraise': 0, 'O8-offer': 0}
     for o in res:
-        if o['kind'] not in counts:
+        if o['kind'] not in counts or (kinds is not None and o['kind'] not in kinds):
             continue
         f = o['func']
         ok = o['verdict'] == 'OK'
